@@ -1,7 +1,2 @@
 SPECIFICATION TSpec
-CONSTANTS
-MaxPing = 4
-MaxPong = 5
-Horizon = 24
-ReplaceOnPing = FALSE
 CHECK_DEADLOCK FALSE
